@@ -407,16 +407,19 @@ def replace_matching_item(
                 output_line = compiled_re.sub(_LINE_SCRUBBED_MESSAGE, output_line)
                 break
 
-            # This is text preceding the password and shouldn't be anonymized
-            prefix = match.group("prefix") if "prefix" in match.groupdict() else ""
-            # re.sub replaces the entire matching string, which includes prefix
-            # Therefore, anon_val should have prefix prepended if applicable
-            anon_val = prefix + _anonymize_value(
-                match.group(sensitive_item_num), pwd_lookup, reserved_words, salt
-            )
-            # Use a function so the replacement text is inserted literally
-            # (a backslash in the preserved prefix is not an escape sequence)
-            output_line = compiled_re.sub(lambda _: anon_val, output_line)
+            def _anonymize_match(m, num=sensitive_item_num):
+                # This is text preceding the password and shouldn't be anonymized
+                prefix = m.group("prefix") if "prefix" in m.groupdict() else ""
+                # re.sub replaces the entire matching string, which includes prefix
+                # Therefore, the replacement should have prefix prepended if applicable
+                return prefix + _anonymize_value(
+                    m.group(num), pwd_lookup, reserved_words, salt
+                )
+
+            # Anonymize every match with its own item: a line may hold several
+            # (e.g. two hashes). Using a function also inserts the replacement
+            # text literally (a backslash in the prefix is not an escape sequence)
+            output_line = compiled_re.sub(_anonymize_match, output_line)
 
         # If any matches existed in this regex group, stop processing more regexes
         if match_found:
